@@ -8,7 +8,8 @@ SPEC = dict(
          'every string over the 12-byte structural alphabet {00,01,02,04,05,07,08,1f,80,88,ff,03} that starts with a0 a1, short:<entry point>:empty = the empty input; '
          '(ii) m:<seed>:<family>:<chunk>:<log level> = one chunk of one mutation family of one seed: id (the seed itself), trunc (every proper prefix), byte (every '
          'offset x {=00,=ff,^01,^80,+1,-1}, duplicates and no-ops dropped), len (every TLV length field found by walking the TLV structure x {0, own-1, own+1, rest of '
-         'buffer, 0xffff}), zend (one element, at any depth, moved to the very end of the buffer with length 0, all ancestors re-encoded); seeds are the files of '
+         'buffer, 0xffff}), zend (one element, at any depth, moved to the very end of the buffer with length 0, all ancestors re-encoded), sweep (reference-built seeds up to 2000 bytes: every other byte value at every offset; '
+         'quick tier: one signature, header bytes + first four payload bytes of every leaf + every byte of leaves <= 16 bytes), legacy (every 29-octet legacy identifier rewritten with string length 0..31 x 3 padding variants); seeds are the files of '
          'test/resource/tlv (and v2/) up to 70000 bytes and reference-built signatures and PDUs (harness/ref); each mutant goes to the entry points of the seed type '
          '(signature: both signature parsers, KSI_TLV_parseBlob, KSI_TlvElement_parse plain and with expansion, KSI_FTLV_memRead/memReadN; PDU: the PDU parser under '
          'version option 1 and 2; publications file: KSI_PublicationsFile_parse; other: the raw TLV readers); (iii) text:<entry point>:... = every string of length 1..3 '
